@@ -344,17 +344,28 @@ type Agg struct {
 	Notes        map[string]interface{}
 	mu           sync.Mutex
 	stopped      int32 // set when the violation cap is reached: remaining cases are skipped
+	watchdogs    int   // cases ended by the per-case watchdog
+	hung         bool  // the run was cut short because of them
 }
 
 // MaxViolations caps the violations collected before the run is cut short (a badly broken
 // tree must not make the check run for hours; the verdict is a violation either way).
 const MaxViolations = 40
 
+// MaxWatchdogs caps the cases that may end in the per-case watchdog before the run is cut
+// short: a tree on which case after case never finishes must not keep the check busy for hours
+// (16 workers x 120 s per case); the verdict of such a run is withheld (exit 2), never "held".
+const MaxWatchdogs = 16
+
 func (a *Agg) shouldStop() bool {
 	a.mu.Lock()
 	defer a.mu.Unlock()
 	if len(a.Violations) >= MaxViolations {
 		a.stopped = 1
+	}
+	if a.watchdogs >= MaxWatchdogs {
+		a.stopped = 1
+		a.hung = true
 	}
 	return a.stopped == 1
 }
@@ -393,6 +404,9 @@ func (a *Agg) absorb(r *Result, stderrTail string) {
 		a.Violations = append(a.Violations, &Violation{Case: r.Index, Sig: r.Sig, Msg: r.Msg, Script: r.Script, Stderr: stderrTail})
 	case Inconclusive:
 		a.Inconclusive = append(a.Inconclusive, fmt.Sprintf("case %d: %s", r.Index, r.Msg))
+		if strings.HasPrefix(r.Msg, "case watchdog fired") {
+			a.watchdogs++
+		}
 	}
 }
 
@@ -881,6 +895,10 @@ func finish(a *Agg, start time.Time, partial bool) int {
 	}
 	if unknown > 0 {
 		return 1
+	}
+	if a.hung {
+		fmt.Printf("BROKEN-CHECK property=%s %d cases did not finish within the per-case watchdog: the run was cut short, verdict withheld\n", p.ID, a.watchdogs)
+		return 2
 	}
 	if distinct < floor {
 		fmt.Printf("BROKEN-CHECK property=%s only %d distinct non-trivial cases (floor %d): verdict withheld\n", p.ID, distinct, floor)
